@@ -157,6 +157,9 @@ func vtC02MgrGen(r *rand.Rand, i int) (string, []int64) {
 	shape := []string{"flat", "two", "two", "three"}[r.Intn(4)]
 	K := 3 + r.Intn(3)
 	scale := r.Intn(2) == 0 // EnableMinQuotaScale
+	// "exact": scaling on, non-round values, every leaf asks for more than its min and the cluster total is
+	// (mostly) EXACTLY the sum of the top-level minimums — nothing has to be scaled, nothing may be lost
+	exact := scale && style != "small" && r.Intn(4) != 0
 	pal := make([]int64, 4+r.Intn(3))
 	for j := range pal {
 		switch {
@@ -186,6 +189,9 @@ func vtC02MgrGen(r *rand.Rand, i int) (string, []int64) {
 			return 2000000000000 + r.Int63n(1000000000000)
 		}
 		return int64(1)<<52 + r.Int63n(1<<40)
+	}
+	if exact && r.Intn(2) == 0 {
+		shape = "flat"
 	}
 	// the planned topology: parent and flags of every name
 	plan := make([]vtC02MgrMeta, K+1)
@@ -268,7 +274,7 @@ func vtC02MgrGen(r *rand.Rand, i int) (string, []int64) {
 		}
 		var t int64
 		x := r.Intn(5)
-		if scale && r.Intn(3) == 0 {
+		if (scale && r.Intn(3) == 0) || (exact && r.Intn(3) != 0) {
 			x = 0 // exactly the sum of the minimums: nothing has to be scaled
 		}
 		switch x {
@@ -309,13 +315,39 @@ func vtC02MgrGen(r *rand.Rand, i int) (string, []int64) {
 		update(k, big(), q(), w)
 	}
 	for k := 1; k <= K; k++ {
-		if cur[k].live && !cur[k].meta.isParent && r.Intn(4) != 0 {
-			pod(k, 0, q())
+		if cur[k].live && !cur[k].meta.isParent && (exact || r.Intn(4) != 0) {
+			if exact {
+				pod(k, 0, cur[k].min+q())
+			} else {
+				pod(k, 0, q())
+			}
 		}
 	}
 	total()
 	limit := len(ops)/7 + 4 + r.Intn(8)
 	for len(ops)/7 < limit {
+		if exact && r.Intn(2) == 0 {
+			// a fresh non-round min for a top-level quota, then again a total that is (mostly) exactly the sum
+			c := []int{}
+			for k := 1; k <= K; k++ {
+				if cur[k].live && cur[k].meta.parent == 0 {
+					c = append(c, k)
+				}
+			}
+			if len(c) > 0 {
+				k := c[r.Intn(len(c))]
+				v := 10000000000 + r.Int63n(400000000000)
+				if style == "large" {
+					v = int64(1)<<40 + r.Int63n(1<<42)
+				}
+				update(k, cur[k].max, v, cur[k].w)
+				if !cur[k].meta.isParent {
+					pod(k, 0, v+q())
+				}
+				total()
+				continue
+			}
+		}
 		switch x := r.Intn(20); {
 		case x < 5:
 			pod(pickLive(true), r.Intn(2), q())
@@ -376,6 +408,9 @@ func vtC02MgrGen(r *rand.Rand, i int) (string, []int64) {
 	if scale {
 		hdr += 100
 		label += "-scale"
+	}
+	if exact {
+		label += "-exact"
 	}
 	in := append([]int64{hdr, int64(len(ops) / 7)}, ops...)
 	return label, in
